@@ -234,6 +234,39 @@ def replay_tassign(cases, F, mon):
     return ex
 
 
+# ------------------------------------------------------------------------------ rename_columns (C08)
+def replay_rename(cases, F, mon):
+    ex = 0
+    for n, c in enumerate(cases):
+        names, olds, news = c["names"], c["olds"], c["news"]
+        t = mk_table(names, 2)
+        before = table_view(t)
+        forms = [lambda: t.rename_columns(list(olds), list(news)), lambda: t.rename_columns(tuple(olds), tuple(news))]
+        st, r, e = attempt(forms[n % 2])
+        ex += 1
+        got = t.column_names()
+        if c["ok"]:
+            if st != "ok":
+                F.add("rename", c, "raised " + type(e).__name__, c["result"])
+            elif got != c["result"]:
+                F.add("rename", c, got, c["result"])
+            # the accessor map follows at once
+            if st == "ok":
+                for i, nm_ in enumerate(c["result"]):
+                    if c["result"].index(nm_) == i:
+                        st2, col, e2 = attempt(lambda: getattr(t, nm_))
+                        if st2 != "ok" or col is not t.cols()[i]:
+                            F.add("lookup", c, "t.%s does not resolve to column %d after rename_columns" % (nm_, i), "resolves")
+        else:
+            if st == "ok":
+                F.add("rename_reject", c, got, "an error (old name not found / length mismatch)")
+            if got != names:
+                F.add("rename_atomic", c, got, names)
+            elif not views_equal(before, table_view(t)):
+                F.add("rename_atomic", c, "table changed by a failed rename_columns", "unchanged")
+    return ex
+
+
 # ------------------------------------------------------------------------------ structure (C02)
 def struct(out_path):
     F, mon, ex = Fails(), Monitor(), 0
@@ -423,7 +456,7 @@ def main():
     suite, cases_path, out_path = sys.argv[2], sys.argv[3], sys.argv[4]
     cases = json.load(open(cases_path))
     F, mon = Fails(), Monitor()
-    ex = {"select": replay_select, "arith": replay_arith, "tassign": replay_tassign}[suite](cases, F, mon)
+    ex = {"select": replay_select, "arith": replay_arith, "tassign": replay_tassign, "rename": replay_rename}[suite](cases, F, mon)
     json.dump({"executed": ex, "failures": F.items, "per_clause": F.per, "skipped": F.skipped, **mon.dump()},
               open(out_path, "w"), default=str)
 
